@@ -1471,6 +1471,22 @@ class FoldConstantsPass(ir.passes.InPlacePass):
     def visit_function(self, function: ir.Function) -> None:
         for node in function:
             self.visit_node(node, function)
+        # A function has no initializers (they are dropped when the function is serialized).
+        # Whatever an inlined If branch brought along becomes a Constant node at the top of the body.
+        body = function.graph
+        first = next(iter(function), None)
+        for name in list(body.initializers):
+            initializer = body.initializers.pop(name)
+            if initializer.const_value is None or not initializer.uses():
+                continue
+            constant = ir.node("Constant", inputs=[], attributes={"value": initializer.const_value})
+            if first is None:
+                function.append(constant)
+            else:
+                function.insert_before(first, constant)
+            initializer.replace_all_uses_with(constant.outputs[0])
+            constant.outputs[0].name = name
+            self._modified = True
 
     def call(self, model: ir.Model) -> FoldConstantsResult:
         self._reset()
